@@ -7,6 +7,8 @@ import (
 	"fmt"
 	"strconv"
 	"strings"
+
+	"github.com/Trendyol/go-dcp/models"
 )
 
 // rows of a `scrape [...] total=N` observation: vb -> the eight fields as text
@@ -188,6 +190,9 @@ func (g *genSt) staleWindow() {
 	if g.memM == g.effM && g.memT == g.effT {
 		return
 	}
+	if g.held {
+		return // the held call's observer counts its event only when the call returns: no scrape of that observer meanwhile
+	}
 	for i, n := 0, r.Intn(3); i < n; i++ {
 		switch r.Intn(3) {
 		case 0:
@@ -217,6 +222,7 @@ func (g *genSt) apiReassign() (int, int) {
 	}
 	g.staleWindow()
 	g.effM, g.effT = g.memM, g.memT
+	g.nReb++
 	return chunkRange(g.nvbTot, g.memT, g.memM)
 }
 
@@ -239,8 +245,10 @@ func (g *genSt) apiQuery() {
 		g.apiMetricsOp()
 	case x < 67:
 		g.apiStatusOp()
-	case x < 90:
+	case x < 84:
 		g.apiInfoOp()
+	case x < 92:
+		g.apiHeldSeq()
 	default:
 		g.viaAPI = true
 		g.rebalance()
@@ -257,6 +265,10 @@ func (g *genSt) apiQuery() {
 // right after `close`: every endpoint answers at once, nothing is triggered, nothing crashes
 func (g *genSt) apiClosed() {
 	r := g.c.R
+	if g.held {
+		g.releaseHeld() // hold-next; mu; close; release
+		g.tags["api.held-across-close"] = true
+	}
 	if r.Chance(35) && len(g.ctxIdx) > 0 {
 		// a late acknowledgement leaves an entry in the closed stream object's offset map: the endpoint still says closed
 		g.do(fmt.Sprintf("ack %d", g.ctxIdx[r.Intn(len(g.ctxIdx))]))
@@ -306,4 +318,94 @@ func (g *genSt) trackedFloor(vb int, h uint64) uint64 {
 		return o.SeqNo
 	}
 	return h
+}
+
+// arm the consumer and deliver until one document event is inside ConsumeEvent (held); false: none got there
+func (g *genSt) holdOne() bool {
+	if g.held || !g.open {
+		return false
+	}
+	g.do("hold-next")
+	for try := 0; try < 10 && !g.held; try++ {
+		before := len(g.ctxIdx)
+		g.event()
+		if len(g.ctxIdx) > before {
+			// the newest context is the one in flight; its vBucket is in the deliver line noted by noteDeliveries
+			g.held = true
+			g.heldVb = g.ctxVb(g.ctxIdx[len(g.ctxIdx)-1])
+		}
+	}
+	if !g.held {
+		g.do("release") // nothing reached the consumer: disarm
+		g.tags["api.held.none-delivered"] = true
+		return false
+	}
+	g.tags["api.held"] = true
+	return true
+}
+
+func (g *genSt) releaseHeld() {
+	g.do("release")
+	g.held = false
+}
+
+// a consumer call that starts before a rebalance (or two) and returns after it: every counter and gauge of the scrape that
+// follows is what the completed steps made it, whatever the call does when it returns
+func (g *genSt) apiHeldSeq() {
+	r := g.c.R
+	if !g.holdOne() {
+		return
+	}
+	n0 := g.nReb
+	rounds := 1
+	if r.Chance(25) {
+		rounds = 2
+	}
+	for i := 0; i < rounds; i++ {
+		g.viaAPI = r.Bool()
+		g.rebalance()
+		g.viaAPI = false
+		if g.hi > g.lo || !(g.heldVb >= g.lo && g.heldVb <= g.hi) {
+			for k, m := 0, r.Intn(3); k < m; k++ {
+				g.event() // the new session goes on meanwhile (other vBuckets only)
+			}
+		}
+	}
+	g.releaseHeld()
+	if g.nReb > n0 {
+		g.tags["api.held-across-rebalance"] = true
+		if g.nReb > n0+1 {
+			g.tags["api.held-across-two-rebalances"] = true
+		}
+	}
+	if r.Bool() {
+		g.do("api-metrics")
+	} else {
+		g.do("scrape")
+	}
+}
+
+// before a close: sometimes with a consumer call in flight (released right after the close, in apiClosed)
+func (g *genSt) apiBeforeClose() {
+	if g.c.R.Chance(20) {
+		g.holdOne()
+	}
+}
+
+// vBucket of the event of context i (the generator runs online, next to the fake consumer)
+func (g *genSt) ctxVb(i int) int {
+	g.e.co.mu.Lock()
+	defer g.e.co.mu.Unlock()
+	if i < 0 || i >= len(g.e.co.ctxs) {
+		return -1
+	}
+	switch ev := g.e.co.ctxs[i].Event.(type) {
+	case models.DcpMutation:
+		return int(ev.VbID)
+	case models.DcpDeletion:
+		return int(ev.VbID)
+	case models.DcpExpiration:
+		return int(ev.VbID)
+	}
+	return -1
 }
